@@ -7,6 +7,7 @@ name = sys.argv[2] if len(sys.argv) > 2 else pid + '_a'
 wt = sys.argv[3] if len(sys.argv) > 3 else f'/tmp/mut_{pid}'
 mut = f'{wt}/_mut'
 VERIF = '/verif'
+REPO = os.environ.get('VERIF_REPO', '/repo')   # a scratch checkout when several evaluations run side by side
 
 def sh(cmd, cwd=None, timeout=3600):
     p = subprocess.run(cmd, shell=True, cwd=cwd, capture_output=True, text=True, timeout=timeout)
@@ -33,7 +34,7 @@ res['demo_without_change_tail'] = out2.strip().splitlines()[-8:]
 time.sleep(1.2)
 sh(f'git apply {patch}', cwd=wt)
 # 4. our checks against it
-rc, out = sh(f'git -C /repo apply {patch}')
+rc, out = sh(f'git -C {REPO} apply {patch}')
 assert rc == 0, out
 checks = {}
 try:
@@ -53,7 +54,7 @@ try:
                 except Exception:
                     pass
 finally:
-    sh('git -C /repo checkout -- .')
+    sh(f'git -C {REPO} checkout -- .')
 res['checks'] = checks
 d = f'{VERIF}/seeded/{name}'
 os.makedirs(d, exist_ok=True)
@@ -73,4 +74,5 @@ for p in caught:
         print(p, l)
 # evidence files written while a change was applied are not evidence about the tree: restore the committed ones
 import subprocess as _sp
-_sp.run(['git', '-C', '/verif', 'checkout', '--', 'evidence'])
+if 'VERIF_EVID' not in os.environ:
+    _sp.run(['git', '-C', '/verif', 'checkout', '--', 'evidence'])
